@@ -895,7 +895,7 @@ func WaitForCacheSync(name string, stop <-chan struct{}, cacheSyncs ...cache.Inf
 			// Log every 50th attempt (5s) at info, to avoid too much noisy
 			log.WithLabels("name", name, "attempt", attempt, "time", time.Since(t0)).Infof("waiting for sync...")
 		}
-		if simhook.SpinWait() {
+		if simhook.SpinWait(attempt) {
 			continue
 		}
 		if !sleep.Until(stop, delay) {
